@@ -235,6 +235,15 @@ func (g *Gen) tx(ty string, from string, rest string, plan string) string {
 		}
 		g.stats.Mut("dropped-execution")
 		g.x.Line(fmt.Sprintf("SIM %d %s", g.n(), b))
+		// ... possibly followed by further messages on the same dropped branch
+		for k := 0; k < 2 && len(g.recent) > 0 && g.r.Chance(1, 2); k++ {
+			b2 := body
+			if g.r.Chance(2, 3) {
+				b2 = g.recent[g.r.Intn(len(g.recent))]
+			}
+			g.stats.Mut("dropped-execution-chained")
+			g.x.Line(fmt.Sprintf("SIM %d %s chain=1", g.n(), b2))
+		}
 	}
 	if len(g.recent) < 24 {
 		g.recent = append(g.recent, body)
@@ -246,6 +255,17 @@ func (g *Gen) tx(ty string, from string, rest string, plan string) string {
 }
 // sim runs a message on a branch that is dropped whatever the outcome (simulation, CheckTx, or an early message of a
 // transaction whose later message fails); the generator's own bookkeeping must not treat it as delivered.
+// simChained is a further message on the dropped branch of the SIM step before it (when that one succeeded).
+func (g *Gen) simChained(ty string, from string, rest string, plan string) {
+	l := fmt.Sprintf("SIM %d %s from=%x chain=1", g.n(), ty, from)
+	if rest != "" {
+		l += " " + rest
+	}
+	if plan != "" {
+		l += " plan=" + plan
+	}
+	g.x.Line(l)
+}
 func (g *Gen) sim(ty string, from string, rest string, plan string) {
 	l := fmt.Sprintf("SIM %d %s from=%x", g.n(), ty, from)
 	if rest != "" {
